@@ -58,22 +58,22 @@ Section Keyed.
     tag_ok noetag (metag cm) /\ prefix (mbody cm) (bodyf (metag cm)) /\ H cm /\ Tg (metag cm).
 
   (* the message that asks for the next block / acknowledges this one *)
-  Definition next_shape (e : ep) (r : msg) (isb1 : bool) (b : blk) (sm : msg) : Prop :=
+  Definition next_shape (sent : option msg) (r : msg) (isb1 : bool) (b : blk) (sm : msg) : Prop :=
     mtok sm = tk /\ mbody sm = [] /\ mobs sm = None /\
     if isb1 then mcode sm = Continue /\ mb2 sm = None /\ metag sm = None /\
                  exists nb, mb1 sm = Some nb /\ bnum nb = bnum b /\ (0 <= bszx b -> 0 <= bszx nb)
-    else exists sr, get_sent_request e tk = Some sr /\ mcode sm = mcode sr /\ mother sm = mother sr /\
+    else exists sr, sent = Some sr /\ mcode sm = mcode sr /\ mother sm = mother sr /\
                     metag sm = metag sr /\ mb1 sm = None /\
                     exists nb, mb2 sm = Some nb /\ (0 <= bszx b -> 0 <= bszx nb <= 7 /\ 0 <= bnum nb) /\
                                (* repaired: only a GET / DELETE is ever repeated from block 0 *)
                                (bnum nb <> 0 \/ mcode sr = GET \/ mcode sr = DELETE).
 
-  Lemma pr_keyed e r maxszx isb1 b :
+  Lemma pr_keyed_s e r maxszx isb1 b sent :
     0 <= maxszx <= 7 -> (mcode r =? GET) || (mcode r =? DELETE) = false ->
     is_observe_response r = false -> blockopt isb1 r = Some b ->
     coherent bodyf noetag isb1 r -> H r -> Tg (metag r) ->
     (forall cm, tget (receiving e) tk = Some cm -> entry_ok cm) ->
-    let '(e', o, d) := process_received app e r maxszx isb1 in
+    let '(e', o, d) := process_received_s app e r maxszx isb1 sent in
     e' = with_receiving e (receiving e') /\
     (forall k, k <> tk -> tget (receiving e') k = tget (receiving e) k) /\
     (forall cm, tget (receiving e') tk = Some cm -> entry_ok cm) /\
@@ -83,14 +83,14 @@ Section Keyed.
                 mbody x = bodyf (metag x) /\ H x /\ Tg (metag x) /\
                 (x = r \/ blockopt isb1 x = None) /\
                 (bnum b = 0 \/ nonempty_at (receiving e) tk)) \/
-     (exists sm, d = [] /\ o = Out (Some sm) /\ next_shape e r isb1 b sm)).
+     (exists sm, d = [] /\ o = Out (Some sm) /\ next_shape sent r isb1 b sm)).
   Proof.
     intros Hmax Hgd Hobs Hb [Htag Hcoh] Hr Htg Hent.
     pose proof (H_tok r Hr) as Htok.
-    unfold blockopt in Hb, Hcoh. unfold process_received. rewrite Hgd, Hb in *.
+    unfold blockopt in Hb, Hcoh. unfold process_received_s. rewrite Hgd, Hb in *.
     destruct Hcoh as [Hs [Hn [Hsl Hfin]]].
     unfold observe_key. rewrite Hobs. rewrite Htok.
-    destruct (if isb1 then false else match get_sent_request e tk with None => true | Some _ => false end) eqn:Hsent.
+    destruct (if isb1 then false else match sent with None => true | Some _ => false end) eqn:Hsent.
     { split; [symmetry; apply with_receiving_same|]. split; [reflexivity|]. split; [exact Hent|].
       split; [intros Hne; right; exact Hne|left; split; reflexivity]. }
     cbn [negb].
@@ -112,13 +112,13 @@ Section Keyed.
          else
            let szx := Z.min szx0 maxszx in
            let psize := blen (mbody cm') in
-           if refuse_restart isb1 (psize / size szx) (get_sent_request e tk)
+           if refuse_restart isb1 (psize / size szx) (sent)
            then (with_receiving e2 (tdel (receiving e2) tk), Fail, []) else
            let sm :=
              if isb1 then
                {| mcode := Continue; mtok := tk; mb1 := Some {| bszx := szx; bnum := bnum b; bmore := bmore b |};
                   mb2 := None; ms1 := None; ms2 := None; metag := None; mobs := None; mother := []; mbody := [] |}
-             else match get_sent_request e tk with
+             else match sent with
                   | Some sr =>
                     {| mcode := mcode sr; mtok := tk; mb1 := None;
                        mb2 := Some {| bszx := szx; bnum := psize / size szx; bmore := bmore b |};
@@ -135,7 +135,7 @@ Section Keyed.
                   mbody x = bodyf (metag x) /\ H x /\ Tg (metag x) /\
                   (x = r \/ blockopt isb1 x = None) /\
                   (bnum b = 0 \/ nonempty_at (receiving e) tk)) \/
-       (exists sm, d = [] /\ o = Out (Some sm) /\ next_shape e r isb1 b sm))).
+       (exists sm, d = [] /\ o = Out (Some sm) /\ next_shape sent r isb1 b sm))).
     { intros cm szx0 Hszx0 [Hcm [Hpre [Hcmh Hcmt]]] Hwhere Hoff.
       pose proof (reasm_ok bodyf noetag cm r (bnum b * size szx0) (bnum b * size (bszx b)) Hcm Hpre Htag Hsl Hoff) as Hre.
       (* whether the buffer was non-empty before, when a non-first block is appended *)
@@ -176,7 +176,7 @@ Section Keyed.
         split; [right; unfold blockopt; destruct isb1; reflexivity|].
         apply Hfirst. exact Ha.
       - cbv zeta.
-        destruct (refuse_restart isb1 (blen (mbody cm') / size (Z.min szx0 maxszx)) (get_sent_request e tk)) eqn:Hrefuse.
+        destruct (refuse_restart isb1 (blen (mbody cm') / size (Z.min szx0 maxszx)) (sent)) eqn:Hrefuse.
         { (* repaired: the restart at block 0 is refused, the entry is released *)
           cbn [receiving with_receiving].
           split; [destruct e; reflexivity|].
@@ -201,7 +201,7 @@ Section Keyed.
         unfold next_shape. destruct isb1.
         + cbn [mtok mbody mobs mcode mb2 metag mb1]. repeat split.
           eexists. split; [reflexivity|]. cbn [bnum bszx]. split; [reflexivity|]. lia.
-        + destruct (get_sent_request e tk) as [sr|] eqn:Hsr; [|discriminate Hsent].
+        + destruct (sent) as [sr|] eqn:Hsr; [|discriminate Hsent].
           cbn [mtok mbody mobs mcode mb2 metag mb1 mother]. repeat split.
           exists sr. repeat split. eexists. split; [reflexivity|]. cbn [bnum bszx]. split.
           { intros _. assert (Hq : 0 <= Z.min szx0 maxszx <= 7) by lia.
@@ -492,13 +492,18 @@ Section System.
     apply sendB_tput; auto.
   Qed.
 
+  Lemma pr_noblock_s app e r mx isb1 sent :
+    blockopt isb1 r = None -> (mcode r =? GET) || (mcode r =? DELETE) = false ->
+    process_received_s app e r mx isb1 sent =
+    if isb1 && match mb2 r with Some b2 => negb (bnum b2 =? 0) | None => false end then (e, Fail, [])
+    else (e, Out (app (mtok r) r), [r]).
+  Proof. intros Hb Hgd. unfold process_received_s. unfold blockopt in Hb. rewrite Hgd, Hb. reflexivity. Qed.
   Lemma pr_noblock app e r mx isb1 :
     blockopt isb1 r = None -> (mcode r =? GET) || (mcode r =? DELETE) = false ->
     process_received app e r mx isb1 =
     if isb1 && match mb2 r with Some b2 => negb (bnum b2 =? 0) | None => false end then (e, Fail, [])
     else (e, Out (app (mtok r) r), [r]).
-  Proof. intros Hb Hgd. unfold process_received. unfold blockopt in Hb. rewrite Hgd, Hb. reflexivity. Qed.
-
+  Proof. intros Hb Hgd. unfold process_received. apply pr_noblock_s; assumption. Qed.
   Lemma code_cases x : In x (cexch c) -> xcode x = GET \/ xcode x = POST \/ xcode x = PUT \/ xcode x = DELETE.
   Proof. intros Hx. destruct (wf_exch c Hwf x Hx) as [_ [Hc _]]. unfold GET, POST, PUT, DELETE in *. lia. Qed.
 
@@ -513,20 +518,20 @@ Section System.
     - rewrite Hother in Hg by exact Hne. exact (Hr _ _ Hg).
   Qed.
 
-  Lemma handle_received_B vs V e m :
+  Lemma handle_received_B_s vs V e m sent :
     vers_ok vs -> Vle (ver vs) V -> invB V e -> okB V m ->
-    let '(e', o, d) := handle_received (app_b c vs) e m in
+    let '(e', o, d) := handle_received_s (app_b c vs) e m sent in
     invB V e' /\ (forall sm, o = Out (Some sm) -> okA V sm) /\ (forall x, In x d -> delivB_ok V x).
   Proof.
     intros Hvs HV Hinv Hm. pose proof Hinv as [He1 [He2 [Hs Hr]]].
     assert (Hszx : 0 <= eszx e <= 7) by (rewrite He1; apply (wf_szxB c Hwf)).
     destruct Hm as [[x [Hx [Hh [Het [Hb2 Hb1]]]]]|[[Hnil [Hmb2 [Hmobs Hcode]]] Hinc]].
     2: { (* 4.08 from A: handed to the application, which ignores it *)
-      unfold handle_received. rewrite Hinc.
+      unfold handle_received_s. rewrite Hinc.
       replace ((Incomplete =? 0) || ((225 <=? Incomplete) && (Incomplete <=? 229))) with false by reflexivity.
       replace ((Incomplete =? GET) || (Incomplete =? DELETE)) with false by reflexivity.
       replace (is_upload Incomplete) with false by reflexivity.
-      rewrite pr_noblock by (unfold blockopt; try rewrite Hinc; try exact Hmb2; reflexivity).
+      rewrite pr_noblock_s by (unfold blockopt; try rewrite Hinc; try exact Hmb2; reflexivity).
       cbn [andb]. rewrite app_b_incomplete by exact Hinc. cbn [start_sending].
       split; [exact Hinv|]. split; [discriminate|]. intros y [<-|[]]. right. split; assumption. }
     pose proof Hh as [Ht [Hc [Ho Hob]]].
@@ -540,7 +545,7 @@ Section System.
       by (destruct (code_cases x Hx) as [Hcx|[Hcx|[Hcx|Hcx]]]; rewrite Hcx; reflexivity).
     assert (Hupgd : is_upload (xcode x) = negb ((xcode x =? GET) || (xcode x =? DELETE)))
       by (destruct (code_cases x Hx) as [Hcx|[Hcx|[Hcx|Hcx]]]; rewrite Hcx; reflexivity).
-    unfold handle_received. rewrite Hc, Hsig.
+    unfold handle_received_s. rewrite Hc, Hsig.
     destruct ((xcode x =? GET) || (xcode x =? DELETE)) eqn:Hgd; cbn [negb] in Hupgd.
     - (* GET / DELETE: the application sees the request itself *)
       assert (Hfit : 0 <= fit (mb2 m) (eszx e) <= 7) by (apply fit_range; [exact Hszx|intros b Hb; apply (Hb2 b Hb)]).
@@ -570,10 +575,10 @@ Section System.
                        entry_ok (fun _ => req_body x) true (req_hdr x) (fun t => t = None) cm).
         { intros cm Hg. destruct (Hr _ _ Hg) as [x' [Hx' [Hk' [_ Hent]]]].
           rewrite (same_tok x' x Hx' Hx Hk') in Hent. exact Hent. }
-        pose proof (pr_keyed (fun _ => req_body x) true (req_hdr x) (fun t => t = None) (xtok x)
+        pose proof (pr_keyed_s (fun _ => req_body x) true (req_hdr x) (fun t => t = None) (xtok x)
                       (fun m0 Hm0 => proj1 Hm0) (req_hdr_body x) (req_hdr_etag x) (req_hdr_block x) (app_b c vs)
-                      e m (fit (Some b) (eszx e)) true b Hfit Hgd' Hobs Eb1 Hcoh Hh Het Hent) as Hpr.
-        destruct (process_received (app_b c vs) e m (fit (Some b) (eszx e)) true) as [[e1 o] d].
+                      e m (fit (Some b) (eszx e)) true b sent Hfit Hgd' Hobs Eb1 Hcoh Hh Het Hent) as Hpr.
+        destruct (process_received_s (app_b c vs) e m (fit (Some b) (eszx e)) true sent) as [[e1 o] d].
         destruct Hpr as (Hfr & Hoth & Hkey & _ & Hcases).
         assert (Hinv1 : invB V e1).
         { rewrite Hfr. split; [exact He1|]. split; [exact He2|]. split; [exact Hs|]. cbn [receiving with_receiving].
@@ -594,7 +599,7 @@ Section System.
           destruct Hsm as (_ & Hsb & Hso & Hsc & Hs2 & _ & nb & Hnb & Hnn & Hns).
           split; [exact Hsb|]. split; [exact Hs2|]. split; [exact Hso|]. left. split; [exact Hsc|].
           intros b' Hb'. rewrite Hnb in Hb'. injection Hb' as <-. split; [apply Hns; lia|lia].
-      + rewrite pr_noblock by (unfold blockopt; assumption).
+      + rewrite pr_noblock_s by (unfold blockopt; assumption).
         cbn [andb].
         destruct (match mb2 m with Some b2 => negb (bnum b2 =? 0) | None => false end) eqn:Hnz.
         * split; [exact Hinv|]. split; [discriminate|intros y []].
@@ -606,6 +611,11 @@ Section System.
           rewrite Hb2' in Hnz. apply negb_false_iff, Z.eqb_eq in Hnz. contradiction.
   Qed.
 
+  Lemma handle_received_B vs V e m :
+    vers_ok vs -> Vle (ver vs) V -> invB V e -> okB V m ->
+    let '(e', o, d) := handle_received (app_b c vs) e m in
+    invB V e' /\ (forall sm, o = Out (Some sm) -> okA V sm) /\ (forall x, In x d -> delivB_ok V x).
+  Proof. intros. unfold handle_received. apply handle_received_B_s; assumption. Qed.
   Lemma ctl_incomplete t : ctl (entity_incomplete t).
   Proof. unfold ctl, entity_incomplete; cbn. repeat split. right. split; reflexivity. Qed.
 
@@ -742,22 +752,25 @@ Section System.
     (resp_code z =? GET) || (resp_code z =? DELETE) = false.
   Proof. rc_cases z; split; reflexivity. Qed.
 
-  Lemma handle_received_A V e m :
-    invA V e -> okA V m ->
-    let '(e', o, d) := handle_received app_a e m in
+  (* [sent]: what getSentRequest found for the token - the request of the exchange, if anything *)
+  Definition sent_okA (sent : option msg) (tok : Z) : Prop :=
+    forall sr, sent = Some sr -> forall x, In x (cexch c) -> xtok x = tok -> sr = set_body (request_of x) [].
+  Lemma handle_received_A_s V e m sent :
+    invA V e -> okA V m -> sent_okA sent (mtok m) ->
+    let '(e', o, d) := handle_received_s app_a e m sent in
     invA V e' /\ (forall sm, o = Out (Some sm) -> okB V sm) /\ (forall x, In x d -> delivA_ok V x).
   Proof.
-    intros Hinv Hm. pose proof Hinv as [He1 [He2 [He3 [Hs Hr]]]].
+    intros Hinv Hm Hsentok. pose proof Hinv as [He1 [He2 [He3 [Hs Hr]]]].
     assert (Hszx : 0 <= eszx e <= 7) by (rewrite He1; apply (wf_szxA c Hwf)).
     assert (Hstart : 0 <= bszx {| bszx := eszx e; bnum := 0; bmore := true |} /\ 0 <= bnum {| bszx := eszx e; bnum := 0; bmore := true |})
       by (cbn [bszx bnum]; lia).
     assert (Hnone : let '(e', o) := start_sending e None (fit (mb2 m) (eszx e)) (emax e) {| bszx := eszx e; bnum := 0; bmore := true |} in
                     (e', o) = (e, Out None)) by reflexivity.
-    unfold handle_received.
+    unfold handle_received_s.
     destruct Hm as [Hres|Hctl].
     2: { destruct (ctl_codes m Hctl) as [-> [Hgd ->]]. rewrite Hgd.
          destruct Hctl as [Hnil [Hb2 [Hob Hcode]]].
-         rewrite pr_noblock by (unfold blockopt; assumption). cbn [andb app_a start_sending].
+         rewrite pr_noblock_s by (unfold blockopt; assumption). cbn [andb app_a start_sending].
          split; [exact Hinv|]. split; [discriminate|]. intros y [<-|[]]. right. split; [exact Hnil|].
          destruct Hcode as [[Hc _]|[Hc _]]; auto. }
     pose proof Hres as [x [r [v [Hx [Hrs [Hv [Hh [Het Hbody]]]]]]]].
@@ -765,7 +778,7 @@ Section System.
     rewrite Hc. destruct (resp_codes (xcode x)) as [-> Hgd]. rewrite Hgd, resp_not_upload. cbv iota.
     assert (Hgd' : (mcode m =? GET) || (mcode m =? DELETE) = false) by (rewrite Hc; exact Hgd).
     destruct (mb2 m) as [b|] eqn:Eb2.
-    2: { rewrite pr_noblock by (unfold blockopt; assumption). cbn [andb app_a start_sending].
+    2: { rewrite pr_noblock_s by (unfold blockopt; assumption). cbn [andb app_a start_sending].
          split; [exact Hinv|]. split; [discriminate|]. intros y [<-|[]]. left. exists x, r, v.
          split; [exact Hx|]. split; [exact Hrs|]. split; [exact Hv|]. split; [exact Hh|]. split; [exact Het|exact Hbody]. }
     destruct Hbody as [Hbs [Hbn [Hsl [Hfin Hbig]]]].
@@ -780,10 +793,10 @@ Section System.
                    entry_ok (bodyfA r) (negb (retag r)) (resp_hdr x r) (TgA V x r) cm).
     { intros cm Hg. destruct (Hr _ _ Hg) as [x' [r' [Hx' [Hk' [Hr' Hent]]]]].
       pose proof (same_tok x' x Hx' Hx Hk') as ->. rewrite Hrs in Hr'. injection Hr' as <-. exact Hent. }
-    pose proof (pr_keyed (bodyfA r) (negb (retag r)) (resp_hdr x r) (TgA V x r) (xtok x)
+    pose proof (pr_keyed_s (bodyfA r) (negb (retag r)) (resp_hdr x r) (TgA V x r) (xtok x)
                   (fun m0 Hm0 => proj1 Hm0) (resp_hdr_body x r) (resp_hdr_etag x r) (resp_hdr_block x r) app_a
-                  e m (fit (Some b) (eszx e)) false b Hfit Hgd' Hobs Eb2 Hcoh Hh Htg Hent) as Hpr.
-    destruct (process_received app_a e m (fit (Some b) (eszx e)) false) as [[e1 o] d].
+                  e m (fit (Some b) (eszx e)) false b sent Hfit Hgd' Hobs Eb2 Hcoh Hh Htg Hent) as Hpr.
+    destruct (process_received_s app_a e m (fit (Some b) (eszx e)) false sent) as [[e1 o] d].
     destruct Hpr as (Hfr & Hoth & Hkey & _ & Hcases).
     assert (Hinv1 : invA V e1).
     { rewrite Hfr. split; [exact He1|]. split; [exact He2|]. split; [exact He3|]. split; [exact Hs|]. cbn [receiving with_receiving].
@@ -801,10 +814,7 @@ Section System.
       intros wm E. injection E as <-. left.
       destruct Hsm as (Hst & Hsb & Hso & sr & Hsr & Hsc & Hsot & Hset & Hs1 & nb & Hnb & Hnbb & Hnb0).
       split; [exact Hsb|]. left. exists x. split; [exact Hx|].
-      assert (Hsrx : sr = set_body (request_of x) []).
-      { unfold get_sent_request in Hsr. destruct (tget (sending e) (xtok x)) as [m0|] eqn:Hm0.
-        - destruct (Hs _ _ Hm0) as [x' [Hx' [Hk' ->]]]. rewrite (same_tok x' x Hx' Hx Hk') in Hsr. injection Hsr as <-. reflexivity.
-        - rewrite He3, (wf_out c Hwf x Hx) in Hsr. discriminate. }
+      assert (Hsrx : sr = set_body (request_of x) []) by (apply (Hsentok sr Hsr x Hx); symmetry; exact Ht).
       subst sr. cbn [mcode mother metag set_body request_of] in *.
       split; [repeat split; assumption|]. split; [exact Hset|].
       split; [intros b2 E; rewrite Hnb in E; injection E as <-; destruct (Hnbb ltac:(lia)) as [? ?]; lia|].
@@ -816,6 +826,18 @@ Section System.
         rewrite Hlen0; [reflexivity|]. destruct Hgd0 as [Hg|Hg]; rewrite Hg; reflexivity.
   Qed.
 
+  Lemma sent_okA_get V e tok : invA V e -> sent_okA (get_sent_request e tok) tok.
+  Proof.
+    intros [_ [_ [He3 [Hs _]]]] sr Hsr x Hx Hk. subst tok.
+    unfold get_sent_request in Hsr. destruct (tget (sending e) (xtok x)) as [m0|] eqn:Hm0.
+    - destruct (Hs _ _ Hm0) as [x' [Hx' [Hk' ->]]]. rewrite (same_tok x' x Hx' Hx Hk') in Hsr. injection Hsr as <-. reflexivity.
+    - rewrite He3, (wf_out c Hwf x Hx) in Hsr. discriminate.
+  Qed.
+  Lemma handle_received_A V e m :
+    invA V e -> okA V m ->
+    let '(e', o, d) := handle_received app_a e m in
+    invA V e' /\ (forall sm, o = Out (Some sm) -> okB V sm) /\ (forall x, In x d -> delivA_ok V x).
+  Proof. intros Hinv Hm. unfold handle_received. apply handle_received_A_s; [exact Hinv|exact Hm|eapply sent_okA_get; exact Hinv]. Qed.
   Lemma okB_incomplete V t : okB V (entity_incomplete t).
   Proof. right. split; [apply ctl_incomplete|reflexivity]. Qed.
 
@@ -1261,19 +1283,19 @@ Section System.
     apply H1. intros Hnil. rewrite Hnil in E. cbn in E. nia.
   Qed.
 
-  Lemma pr_once app e r mx isb1 :
+  Lemma pr_once_s app e r mx isb1 sent :
     is_observe_response r = false -> (mcode r =? GET) || (mcode r =? DELETE) = false ->
     (forall cm, tget (receiving e) (mtok r) = Some cm -> mtok cm = mtok r) ->
-    let '(e', _, d) := process_received app e r mx isb1 in
+    let '(e', _, d) := process_received_s app e r mx isb1 sent in
     once_post e e' (mtok r) (first_blk (blockopt isb1 r)) d.
   Proof.
     intros Hobs Hgd Hkey.
     destruct (blockopt isb1 r) as [b|] eqn:Hb.
-    2: { rewrite pr_noblock by assumption.
+    2: { rewrite pr_noblock_s by assumption.
          destruct (isb1 && _); [apply once_post_quiet|].
          split; [reflexivity|]. split; [intros x [<-|[]]; reflexivity|]. right; left. exists r. cbn. auto. }
-    unfold process_received. unfold blockopt in Hb. rewrite Hgd, Hb. unfold observe_key. rewrite Hobs.
-    destruct (if isb1 then false else match get_sent_request e (mtok r) with None => true | Some _ => false end);
+    unfold process_received_s. unfold blockopt in Hb. rewrite Hgd, Hb. unfold observe_key. rewrite Hobs.
+    destruct (if isb1 then false else match sent with None => true | Some _ => false end);
       [apply once_post_quiet|].
     cbn [negb first_blk].
     assert (Hgen : forall cm szx0,
@@ -1289,13 +1311,13 @@ Section System.
          else
            let szx := Z.min szx0 mx in
            let psize := blen (mbody cm') in
-           if refuse_restart isb1 (psize / size szx) (get_sent_request e (mtok r))
+           if refuse_restart isb1 (psize / size szx) (sent)
            then (with_receiving e2 (tdel (receiving e2) (mtok r)), Fail, []) else
            let sm :=
              if isb1 then
                {| mcode := Continue; mtok := mtok r; mb1 := Some {| bszx := szx; bnum := bnum b; bmore := bmore b |};
                   mb2 := None; ms1 := None; ms2 := None; metag := None; mobs := None; mother := []; mbody := [] |}
-             else match get_sent_request e (mtok r) with
+             else match sent with
                   | Some sr =>
                     {| mcode := mcode sr; mtok := mtok r; mb1 := None;
                        mb2 := Some {| bszx := szx; bnum := psize / size szx; bmore := bmore b |};
@@ -1336,9 +1358,44 @@ Section System.
         apply Z.eqb_eq in Hz.
         split; [reflexivity|]. split; [intros x [<-|[]]; reflexivity|]. right; left. exists r. auto.
   Qed.
+  Lemma pr_once app e r mx isb1 :
+    is_observe_response r = false -> (mcode r =? GET) || (mcode r =? DELETE) = false ->
+    (forall cm, tget (receiving e) (mtok r) = Some cm -> mtok cm = mtok r) ->
+    let '(e', _, d) := process_received app e r mx isb1 in
+    once_post e e' (mtok r) (first_blk (blockopt isb1 r)) d.
+  Proof. intros. unfold process_received. apply pr_once_s; assumption. Qed.
 
   (* the relevant Block option of a message, by its code *)
   Definition fb (r : msg) : Prop := is_plain_code (mcode r) = true \/ first_blk (blockopt (is_upload (mcode r)) r).
+
+  Lemma handle_received_once_s app e r sent :
+    is_observe_response r = false ->
+    (forall cm, tget (receiving e) (mtok r) = Some cm -> mtok cm = mtok r) ->
+    let '(e', _, d) := handle_received_s app e r sent in once_post e e' (mtok r) (fb r) d.
+  Proof.
+    intros Hobs Hkey.
+    assert (Hf1 : (mcode r =? 0) || ((225 <=? mcode r) && (mcode r <=? 229)) = true -> fb r).
+        { intros Hs. left. unfold is_plain_code. rewrite Hs. reflexivity. }
+        assert (Hf2 : (mcode r =? GET) || (mcode r =? DELETE) = true -> fb r).
+        { intros Hs. left. unfold is_plain_code. rewrite <- orb_assoc, Hs. apply orb_true_r. }
+        assert (Hf3 : first_blk (blockopt (is_upload (mcode r)) r) -> fb r) by (intros Hs; right; exact Hs).
+        revert Hf1 Hf2 Hf3. generalize (fb r). intros F Hf1 Hf2 Hf3.
+        unfold handle_received_s.
+        destruct ((mcode r =? 0) || ((225 <=? mcode r) && (mcode r <=? 229))) eqn:Hsig.
+        { split; [reflexivity|]. split; [intros x [<-|[]]; reflexivity|]. right; left. exists r. auto. }
+        destruct ((mcode r =? GET) || (mcode r =? DELETE)) eqn:Hgd.
+        { match goal with |- context [start_sending ?a ?b ?c ?d ?f] =>
+            pose proof (start_sending_receiving a b c d f) as Hr'; destruct (start_sending a b c d f) as [e' o] end.
+          cbn [fst] in Hr'. split; [intros k _; rewrite Hr'; reflexivity|]. split; [intros x [<-|[]]; reflexivity|].
+          right; left. exists r. split; [reflexivity|]. split; [exact Hr'|]. auto. }
+        pose proof (pr_once_s app e r (fit (if is_upload (mcode r) then mb1 r else mb2 r) (eszx e)) (is_upload (mcode r)) sent Hobs Hgd Hkey) as Hp.
+        destruct (process_received_s app e r _ (is_upload (mcode r)) sent) as [[e1 o] d].
+        apply (once_post_weaken _ _ _ _ F) in Hp; [|exact Hf3].
+        destruct o as [w|]; [|exact Hp].
+        match goal with |- context [start_sending ?a ?b ?c ?d ?f] =>
+          pose proof (start_sending_receiving a b c d f) as Hr'; destruct (start_sending a b c d f) as [e2 o2] end.
+        cbn [fst] in Hr'. eapply once_post_recv; [exact Hr'|exact Hp].
+  Qed.
 
   Lemma handle_once_pot app e r :
     is_observe_response r = false ->
@@ -1351,27 +1408,8 @@ Section System.
                match o with Out w => (e', w, d, 0) | Fail => (e', Some (entity_incomplete (mtok r)), d, 1) end) in
               once_post e e' (mtok r) (fb r) d).
     { assert (Hhr : let '(e', _, d) := handle_received app e r in once_post e e' (mtok r) (fb r) d).
-      { assert (Hf1 : (mcode r =? 0) || ((225 <=? mcode r) && (mcode r <=? 229)) = true -> fb r).
-        { intros Hs. left. unfold is_plain_code. rewrite Hs. reflexivity. }
-        assert (Hf2 : (mcode r =? GET) || (mcode r =? DELETE) = true -> fb r).
-        { intros Hs. left. unfold is_plain_code. rewrite <- orb_assoc, Hs. apply orb_true_r. }
-        assert (Hf3 : first_blk (blockopt (is_upload (mcode r)) r) -> fb r) by (intros Hs; right; exact Hs).
-        revert Hf1 Hf2 Hf3. generalize (fb r). intros F Hf1 Hf2 Hf3.
-        unfold handle_received.
-        destruct ((mcode r =? 0) || ((225 <=? mcode r) && (mcode r <=? 229))) eqn:Hsig.
-        { split; [reflexivity|]. split; [intros x [<-|[]]; reflexivity|]. right; left. exists r. auto. }
-        destruct ((mcode r =? GET) || (mcode r =? DELETE)) eqn:Hgd.
-        { match goal with |- context [start_sending ?a ?b ?c ?d ?f] =>
-            pose proof (start_sending_receiving a b c d f) as Hr'; destruct (start_sending a b c d f) as [e' o] end.
-          cbn [fst] in Hr'. split; [intros k _; rewrite Hr'; reflexivity|]. split; [intros x [<-|[]]; reflexivity|].
-          right; left. exists r. split; [reflexivity|]. split; [exact Hr'|]. auto. }
-        pose proof (pr_once app e r (fit (if is_upload (mcode r) then mb1 r else mb2 r) (eszx e)) (is_upload (mcode r)) Hobs Hgd Hkey) as Hp.
-        destruct (process_received app e r _ (is_upload (mcode r))) as [[e1 o] d].
-        apply (once_post_weaken _ _ _ _ F) in Hp; [|exact Hf3].
-        destruct o as [w|]; [|exact Hp].
-        match goal with |- context [start_sending ?a ?b ?c ?d ?f] =>
-          pose proof (start_sending_receiving a b c d f) as Hr'; destruct (start_sending a b c d f) as [e2 o2] end.
-        cbn [fst] in Hr'. eapply once_post_recv; [exact Hr'|exact Hp]. }
+      { pose proof (handle_received_once_s app e r (get_sent_request e (mtok r)) Hobs Hkey) as Hhr0.
+        exact Hhr0. }
       destruct (handle_received app e r) as [[e1 o] d]. destruct o; exact Hhr. }
     destruct (tget (sending e) (mtok r)) as [orig|]; [|exact Hrecv].
     destruct (wants_to_be_received r); [exact Hrecv|].
@@ -1848,7 +1886,7 @@ Section System.
     (o = Fail /\ d = []) \/ (exists x, d = [x] /\ o = Out (app (mtok r) x)) \/
     (exists sm, d = [] /\ o = Out (Some sm) /\ mbody sm = []).
   Proof.
-    unfold process_received.
+    unfold process_received, process_received_s.
     destruct ((mcode r =? GET) || (mcode r =? DELETE)); [right; left; exists r; auto|].
     destruct (if isb1 then mb1 r else mb2 r) as [b|].
     2: { destruct (isb1 && _); [left; auto|right; left; exists r; auto]. }
@@ -1892,7 +1930,7 @@ Section System.
               (let '(e', o, d) := handle_received app e r in
                match o with Out w => (e', w, d, 0) | Fail => (e', Some (entity_incomplete (mtok r)), d, 1) end) in
               nerr <> 0 -> d = [] \/ exists x wm, d = [x] /\ app (mtok r) x = Some wm /\ 16 <= blen (mbody wm)).
-    { unfold handle_received.
+    { unfold handle_received, handle_received_s; fold_pr.
       destruct ((mcode r =? 0) || ((225 <=? mcode r) && (mcode r <=? 229))); [intros Hn; contradiction Hn; reflexivity|].
       destruct ((mcode r =? GET) || (mcode r =? DELETE)).
       - assert (Hfit : 0 <= fit (mb2 r) (eszx e) <= 7) by (apply fit_range; [exact Hsz|intros b H; apply Hb; right; exact H]).
@@ -1987,7 +2025,7 @@ Section System.
       let '(e2', o2, d2) := process_received app e2 r mx isb1 in
       o1 = o2 /\ d1 = d2 /\ agree_at (mtok r) e1' e2' /\ (forall wm, o1 = Out (Some wm) -> mtok wm = mtok r).
     Proof.
-      intros Hobs Hag. pose proof Hag as (H1 & H2 & H3 & H4 & H5). unfold process_received.
+      intros Hobs Hag. pose proof Hag as (H1 & H2 & H3 & H4 & H5). unfold process_received, process_received_s.
       destruct ((mcode r =? GET) || (mcode r =? DELETE)).
       { split; [reflexivity|]. split; [reflexivity|]. split; [exact Hag|]. intros wm E. injection E as E. eapply Happ; exact E. }
       destruct (if isb1 then mb1 r else mb2 r) as [b|].
@@ -2037,7 +2075,7 @@ Section System.
       intros Hobs Hag Hkey. pose proof Hag as (H1 & H2 & H3 & H4 & H5). unfold handle. rewrite <- H4.
       assert (Hhr : let '(e1', o1, d1) := handle_received app e1 r in let '(e2', o2, d2) := handle_received app e2 r in
                     o1 = o2 /\ d1 = d2 /\ agree_at (mtok r) e1' e2' /\ (forall sm, o1 = Out (Some sm) -> mtok sm = mtok r)).
-      { unfold handle_received. rewrite <- H1, <- H2.
+      { unfold handle_received, handle_received_s; fold_pr. rewrite <- H1, <- H2.
         destruct ((mcode r =? 0) || ((225 <=? mcode r) && (mcode r <=? 229))).
         { split; [reflexivity|]. split; [reflexivity|]. split; [exact Hag|]. intros sm E. injection E as E. eapply Happ; exact E. }
         destruct ((mcode r =? GET) || (mcode r =? DELETE)).
@@ -2078,7 +2116,7 @@ Section System.
 
   Lemma process_received_cnt X app e r mx isb1 : cnt_ok X e -> cnt_ok X (fst (fst (process_received app e r mx isb1))).
   Proof.
-    intros [Hf [Hh Hx]]. unfold process_received, cnt_ok.
+    intros [Hf [Hh Hx]]. unfold process_received, process_received_s, cnt_ok.
     destruct ((mcode r =? GET) || (mcode r =? DELETE)); [auto|].
     destruct (if isb1 then mb1 r else mb2 r) as [b|]; [|destruct (isb1 && _); auto].
     destruct (if isb1 then false else match get_sent_request e (mtok r) with None => true | Some _ => false end); [auto|].
@@ -2101,7 +2139,7 @@ Section System.
     assert (Hcs : forall e0, cnt_ok X e0 -> forall e1, efresh e1 = efresh e0 -> ehid e1 = ehid e0 -> eoutside e1 = eoutside e0 -> cnt_ok X e1).
     { intros e0 H0 e1 H1 H2 H3. unfold cnt_ok. rewrite H1, H2, H3. exact H0. }
     assert (Hhr : cnt_ok X (fst (fst (handle_received app e r)))).
-    { unfold handle_received.
+    { unfold handle_received, handle_received_s; fold_pr.
       destruct ((mcode r =? 0) || ((225 <=? mcode r) && (mcode r <=? 229))); [exact Hc|].
       destruct ((mcode r =? GET) || (mcode r =? DELETE)).
       - match goal with |- context [start_sending ?a ?b ?c0 ?d ?f] =>
